@@ -17,7 +17,9 @@ REGISTRY = {
 
 PLAN = {
     "C08": [{"engine": "nuts", "level": "exploration",
-             "quick": {"runs": 1500, "budget_s": 240}, "thorough": {"runs": 20000, "budget_s": 3000}}],
+             "quick": {"runs": 1500, "budget_s": 240}, "thorough": {"runs": 20000, "budget_s": 3000}},
+            {"engine": "gibbs", "level": "exploration",        # NUTS as a block of HybridGibbs: cache coherence at every block update
+             "quick": {"runs": 600, "budget_s": 120}, "thorough": {"runs": 10000, "budget_s": 1200}}],
     "C11": [{"engine": "objhist", "level": "exploration",
              "quick": {"runs": 900, "budget_s": 300}, "thorough": {"runs": 20000, "budget_s": 3000}}],
     "C01": [{"engine": "objhist", "level": "exploration",
@@ -29,5 +31,7 @@ PLAN = {
     "C14": [{"engine": "chain", "level": "fault_enumeration",
              "quick": {"runs": 2500, "budget_s": 300}, "thorough": {"runs": 60000, "budget_s": 3000}}],
     "C02": [{"engine": "mhkernel", "level": "exploration",
-             "quick": {"runs": 2500, "budget_s": 240}, "thorough": {"runs": 60000, "budget_s": 3000}}],
+             "quick": {"runs": 2500, "budget_s": 240}, "thorough": {"runs": 60000, "budget_s": 3000}},
+            {"engine": "gibbs", "level": "exploration",        # MH-type kernels as blocks of HybridGibbs: cached density at every block update
+             "quick": {"runs": 600, "budget_s": 120}, "thorough": {"runs": 10000, "budget_s": 1200}}],
 }
